@@ -15,7 +15,7 @@ TAG_TAILS = ["[-TAG]", "[PYTAGNUM]", "[-TAGNUM]", "[-TAG[NUM]]", "-TAG", "[.PYTA
              "-TAGNUM", "PYTAGNUM"]
 
 
-def gen_pattern(R, decorate=True):
+def gen_pattern(R, decorate=True, pep_bias=False):
     """One unambiguous pattern of grammar G (see DESIGN.md section 3)."""
     parts = []
     c = R.random()
@@ -35,7 +35,7 @@ def gen_pattern(R, decorate=True):
     n_opt = 0
     seps = []
     for i, p in enumerate(parts):
-        sep = "" if i == 0 else R.choice([".", ".", ".", ".", ".", "-", "_"])
+        sep = "" if i == 0 else R.choice([".", ".", ".", ".", ".", "-", "_"] if not pep_bias else ["."] * 12 + ["-", "_"])
         if i > 0 and R.random() < 0.15 and p in PADDED and parts[i - 1] in FIXED_WIDTH:
             sep = ""
         seps.append(sep)
@@ -53,7 +53,7 @@ def gen_pattern(R, decorate=True):
         pass  # letters directly after digits: unambiguous
     pat += tail
     pat += "]" * n_opt
-    if decorate and R.random() < 0.08:
+    if decorate and R.random() < (0.02 if pep_bias else 0.08):
         pre = R.choice(["r", "rel-", "x_", "\\[", "ver.", "(", "+"])
         post = R.choice(["", "\\]", "!", "~", ")", " "]) if not pat.endswith("NUM]") or True else ""
         if pat.startswith("v"):
